@@ -314,12 +314,13 @@ def run_once(rec, S):
             n += 1
             k = (e.name, a0)
             dup = None
-            for (octx, oline) in seen.get(k, []):
-                # same path if one context is a prefix of the other (different arms of a match / if are exclusive)
+            for (octx, oline, odiv) in seen.get(k, []):
+                # same path if one context is a prefix of the other (different arms of a match / if are exclusive),
+                # unless the earlier one sits in a region that returns (`Op::And => return self.short_circuit(..)`)
                 m = min(len(octx), len(e.ctx))
-                if [c[:4] for c in octx[:m]] == [c[:4] for c in e.ctx[:m]]:
+                if [c[:4] for c in octx[:m]] == [c[:4] for c in e.ctx[:m]] and not (odiv - e.div):
                     dup = oline
-            seen.setdefault(k, []).append((e.ctx, e.line))
+            seen.setdefault(k, []).append((e.ctx, e.line, e.div))
             ok = dup is None
             if not ok:
                 rec.inst(R, "%s: %s(%s)" % (name, e.name, args[0][:40]), ok=False, loc="%s:%d" % (COMPILER, e.line))
